@@ -929,6 +929,23 @@ def gen_msg_decls(rng, tier):
                 d.default_arg = None
                 decls.append(d)
                 n += 1
+    # the sentence of one length rule next to a lax companion rule (never binding at the probes)
+    for kind, comp in (("len_char_min", [tid("len_char_max"), EQ, tx(lit("40"))]), ("len_char_max", [tid("len_char_min"), EQ, tx(lit("0"))]),
+                       ("len_char_min", [tid("not_empty")]), ("len_char_max", [tid("not_empty")])):
+        for b in (2, 3, 5):
+            for first in (True, False):
+                env = []
+                e = spell_int("usize", b, "lit" if first else "const", env, "b")
+                subj = [tid(kind), EQ, tx(e)]
+                d = Decl("ms%d" % n, "String", attr([block("validate", [subj, comp] if first else [comp, subj]),
+                                                     derive_block(["Debug", "FromStr"])]), env=env,
+                         name=["T", "Name"][n % 2], tags={"msg", "str"})
+                d.bounds = [b]
+                d.vkind = kind
+                d.companion = True
+                d.default_arg = None
+                decls.append(d)
+                n += 1
     # other variants: the sentence has no bound
     for j, (inner, item) in enumerate([("String", [tid("not_empty")]), ("String", [tid("predicate"), EQ, tfn(0, "p", "p")]),
                                        ("String", [tid("regex"), EQ, tstr(REGEX_LITS[0])]), ("f64", [tid("finite")]),
